@@ -1,13 +1,27 @@
 #!/bin/bash
-# Run once after a fresh restore, offline. Builds nothing that is not on disk.
+# Run once after a fresh restore, offline. Builds only from files on disk: checks the tools, pre-builds the native
+# replayer against /repo and warms the Kani discharge cache (both are rebuilt / re-keyed by every check anyway, from
+# /repo's current tree, so nothing here is needed for correctness).
 set -e
 cd "$(dirname "$0")"
 export CARGO_NET_OFFLINE=true
 mkdir -p build out evidence
 verus --version | head -2
 cargo kani --version || true
-python3 -c "import sys; sys.path.insert(0,'.'); from engine import gen, vspec, verus, check; print('engine ok')"
-if [ -d replayer ]; then
-  (cd replayer && cp /repo/Cargo.lock . 2>/dev/null || true; CARGO_TARGET_DIR=../build/replayer-target cargo build --offline --release 2>&1 | tail -2) || echo "replayer build deferred to first use"
-fi
+python3 - <<'PY'
+import sys
+sys.path.insert(0, '.')
+from engine import gen, native, kani, vspec, verus, check
+info = gen.generate('/repo', 'contracts')
+print('extracted %d functions, %d contract clauses' % (len(info.functions), len(info.obligations)))
+try:
+    print('replayer:', native.build(info))
+except Exception as e:
+    print('replayer build deferred to first use:', e)
+try:
+    ok, cov, why = kani.discharge(['count_ones_is_bit_sum', 'char_from_u8_is_cast', 'predicates_equal_copies'], info, 'quick')
+    print('kani discharge:', ok, why)
+except Exception as e:
+    print('kani discharge deferred to first use:', e)
+PY
 echo setup done
